@@ -39,8 +39,8 @@ func init() {
 type nftFeatures struct{}
 
 func (nftFeatures) GetFeatures() *environment.Features { return &environment.Features{} }
-func (nftFeatures) RefreshFeatures()                    {}
-func (nftFeatures) FeatureGate(string) string           { return "" }
+func (nftFeatures) RefreshFeatures()                   {}
+func (nftFeatures) FeatureGate(string) string          { return "" }
 
 type nftFault struct {
 	Call string `json:"call"` // Run | ListAll | ListRules
@@ -112,13 +112,13 @@ type nftState struct {
 	apps   string
 	drift  bool
 
-	counts          map[string]int
-	faults          []nftFault
-	fired           int
-	runsOK          int
-	listAllOK       bool
-	loaded          bool
-	sleeps          int
+	counts    map[string]int
+	faults    []nftFault
+	fired     int
+	runsOK    int
+	listAllOK bool
+	loaded    bool
+	sleeps    int
 
 	key, out  string
 	nontriv   bool
@@ -204,7 +204,9 @@ func nftNew(cfg nftCfg) *nftState {
 
 func (s *nftState) newTable() {
 	s.table = nftables.NewTable("calico", 4, "cali:", nftFeatures{}, nftables.TableOptions{
-		NewDataplane:           func(knftables.Family, string, ...knftables.Option) (knftables.Interface, error) { return &nftClient{Fake: s.fake, s: s}, nil },
+		NewDataplane: func(knftables.Family, string, ...knftables.Option) (knftables.Interface, error) {
+			return &nftClient{Fake: s.fake, s: s}, nil
+		},
 		RefreshInterval:        c15nftRefresh,
 		SleepOverride:          func(d time.Duration) { s.sleeps++; s.now = s.now.Add(d) },
 		NowOverride:            func() time.Time { return s.now },
